@@ -216,22 +216,35 @@ class C03(Check):
     harness_sources = ['harness/seq.cpp']
     per_case_timeout = 20
     technique = 'machine-checked proof (Coq 8.16.1) about an executable model + differential correspondence with the sanitizer build'
-    level_text = ('Theorems in Coq, for every operation history over several container variables and every element value: the '
-                  'model of List (nodes with slot ids, pool of 4-item blocks with LIFO free list, separate _size field), of PoolList and '
-                  'of Array (items, _capacity, allocation flag, the reserve rule with `| 0x03`) refines a plain `list Z` per variable - '
-                  'contents, order, size, the rank designated by every returned iterator/reference, capacity >= size - and the value-level '
-                  'transcription of List::sort (in-place quicksort, fuel = length) never runs out of fuel and leaves an ascending '
-                  'permutation under any key order. The model is tied to the code by running the extracted model, the extracted spec and '
-                  'the ASan/UBSan build of the working tree on the same histories (results, public state of every variable, slot id of '
-                  'every node, free-list chain, block count, allocation flag compared after every operation).')
+    level_text = ('Theorems in Coq (30, all closed under the global context), for every operation history over several container '
+                  'variables and every element value: (1) the node-level model of List and PoolList (nodes = (value, slot id), pool of '
+                  '4-item blocks with LIFO free list, separate _size field) and the model of Array (items, _capacity, allocation flag, '
+                  'reserve with its `| 0x03` rounding and `!_begin.item` clause, shifting remove) refine one plain `list Z` per variable: '
+                  'contents, order, size, the rank designated by every returned iterator/reference (= the inserted element / the successor '
+                  'of the removed one), capacity >= size, capacity = 3 mod 4 once allocated, no reallocation while the request fits; the '
+                  'pool invariant (every slot of every block in exactly one of nodes / free list) holds in every reachable state. (2) A '
+                  'pointer-level transcription of the relinking code (heap of cells with prev/next, &endItem sentinel, _begin, endItem.prev, '
+                  'free list threaded through prev, block allocation; insert, remove, clear, swap, the append/insert loops, find, forward '
+                  'and backward iteration, front/back, isEmpty) is proved to do exactly what the node-level model does and to return the '
+                  'pointer to the node it names. (3) List::sort transcribed statement by statement on node positions (ptr0/ptr1/ptr2, '
+                  'swap, the guarded recursive calls) is proved equal to a value-level quicksort, which never runs out of fuel = length and '
+                  'returns an ascending permutation under any key order. The node-level model is tied to the code by running the '
+                  'extracted model, the extracted spec and the ASan/UBSan build of the working tree on the same histories (results, public '
+                  'state of every variable, slot id of every node, free-list chain, block count, allocation flag compared after every '
+                  'operation).')
     level_note = ('Trusted: Coq kernel, SeqSpec.v (the reference sequence), extraction + OCaml driver, harness, generators. '
+                  'The theorems are about the models; the tie to the code is differential for the node-level / Array / value-level sort '
+                  'models (they are what the drivers run) and by proof from there to the pointer-level transcriptions (SeqLinkModel, '
+                  'sort_ptr), whose fidelity to the source text is by inspection. Validated by correspondence only: Array::operator==/!=, '
+                  'operator T*, Iterator ++/-- of Array, PoolList::append with 0 or 2..7 constructor arguments (same code path as the 1-argument form), '
+                  'element construction/destruction counts (C04; the harness still reports leaked elements as a failure). '
                   'Arguments that alias the container (`x = x`, append(self), append(own element)) are excluded by the precondition '
                   '(property C04). usize arithmetic is modelled in Z without wrap-around; allocation never fails. '
                   'Alignment of PoolList item headers for element sizes that are not a multiple of sizeof(void*) is outside the '
                   'statement (PoolList<int> puts every other header on a misaligned address: undefined behaviour, harmless to '
                   'contents/order/iterators on this platform; noted in DESIGN, proposed repair kept as '
                   'fixes/C03/02-poollist-item-alignment.declined.patch): the PoolList histories use `long` and a pointer-sized class. '
-                  'Element comparison is `key a < key b` for a total key. The theorems are about the model; the tie to the code is differential.')
+                  'Element comparison is `key a < key b` for a total key.')
     rule = ('cases = histories of 3 variables of one container (List / Array / PoolList) with element type int, Obj (heap-owning '
             'class, ASan sees lifetime errors) or kv (Obj ordered by value/16, so sort output reveals the partition scheme). Streams: '
             'mostly-valid random histories; malformed histories (positions/indices/variables out of range, self arguments: must be '
